@@ -1000,7 +1000,15 @@ def replay(ctx, rp, res):
                 json.dumps(inp["query"]), json.dumps(im)[:600], json.dumps(sp)[:600], why or "accepted"))
             return bad
         if "nonstr_kind" in inp:
-            return True
+            xw = exhaustive_world()
+            bad = False
+            for k in (None, 0, 1.5, b"tcp", ("tcp",), ["tcp"], {"tcp"}, object()):
+                impl.build(py_render(xw), [[p, [[fd, render_target(t)] for fd, t in fds]] for p, fds in xw["procs"]])
+                im = impl.query({"kind": k, "pid": inp.get("pid")})
+                if im != {"kind": "exc", "exc": "ValueError"}:
+                    print("replay: kind=%r -> %s (expected ValueError)" % (k, im))
+                    bad = True
+            return bad
         return True
     finally:
         impl.close()
